@@ -1295,5 +1295,143 @@ func runEqSeqs(payload string) string {
 func init() {
 	streams["eqseqs"] = &stream{gen: genEqSeqs, run: runEqSeqs}
 	streams["eqpair"] = &stream{gen: genEqPair, run: runEqPair}
+	streams["eqmut"] = &stream{gen: genEqMut, run: runEqMut}
 	streams["equnit"] = &stream{gen: genEqUnit, run: runEqUnit}
+}
+
+// ---------------------------------------------------------------------------
+// stream `eqmut` (C05): the verdict is about what the two trees hold NOW. A and an equal copy B are compared first (both
+// ways); then B is changed in place, somewhere below its top level, through the handle of a nested Stack or Condition
+// (Push / Replace / SetKeyword on the nested instance); then they are compared again. The case line carries A and the
+// description B' of B after the change, so the model and the specification answer for (A, B').
+//
+//	A | B' | seq | <i.j.k path through nested Stacks> | push <lit> / rep <lit> <i> / kw <hex>
+
+func genEqMut(r *rand.Rand, id, tier string) string {
+	for try := 0; try < 200; try++ {
+		a := genEqStack(r, 1, "n")
+		a.Cfg.Eqf = 0
+		type site struct {
+			path []int
+			node *V
+		}
+		b := cloneV(a)
+		var sites []site
+		var walk func(v *V, path []int)
+		walk = func(v *V, path []int) {
+			for i := range v.Xs {
+				x := &v.Xs[i]
+				p := append(append([]int{}, path...), i)
+				switch x.T {
+				case 'K':
+					if x.Cfg.Opt&fRO == 0 {
+						sites = append(sites, site{p, x})
+					}
+					walk(x, p)
+				case 'C':
+					sites = append(sites, site{p, x})
+				}
+			}
+		}
+		walk(&b, nil)
+		if len(sites) == 0 {
+			continue
+		}
+		st := sites[r.Intn(len(sites))]
+		var ps []string
+		for _, i := range st.path {
+			ps = append(ps, strconv.Itoa(i))
+		}
+		op := ""
+		if st.node.T == 'C' {
+			nk := st.node.Kw + "x"
+			st.node.Kw = nk
+			op = "kw " + hx(nk)
+		} else {
+			leaf := V{T: 's', S: fmt.Sprintf("m%d", r.Intn(100))}
+			full := st.node.Cfg.Cap != 0 && len(st.node.Xs) >= st.node.Cfg.Cap
+			var reps []int
+			for i, x := range st.node.Xs {
+				if x.T != 'N' {
+					reps = append(reps, i)
+				}
+			}
+			switch {
+			case !full && (len(reps) == 0 || r.Intn(2) == 0):
+				st.node.Xs = append(st.node.Xs, leaf)
+				op = "push " + leaf.String()
+			case len(reps) > 0:
+				i := reps[r.Intn(len(reps))]
+				if st.node.Xs[i].String() == leaf.String() {
+					continue
+				}
+				st.node.Xs[i] = leaf
+				op = fmt.Sprintf("rep %s %d", leaf, i)
+			default:
+				continue
+			}
+		}
+		return a.String() + " | " + b.String() + " | seq | " + strings.Join(ps, ".") + " | " + op
+	}
+	a := genEqStack(r, 1, "n")
+	return a.String() + " | " + cloneV(a).String() + " | copy"
+}
+
+func runEqMut(payload string) string {
+	parts := strings.Split(payload, " | ")
+	va, _ := parseV(strings.Fields(parts[0]))
+	a := Build(va)
+	if len(parts) < 5 {
+		vb, _ := parseV(strings.Fields(parts[1]))
+		b := Build(vb)
+		return "ab=" + isEq(a, b) + " ba=" + isEq(b, a)
+	}
+	b := Build(va) // an equal copy, built independently
+	_, _ = isEq(a, b), isEq(b, a)
+	_, _ = isEq(a, b), isEq(b, a) // (twice: whatever is remembered from the first time must not decide the third)
+	done := guard(func() string {
+		cur, _ := stackage.ConvertStack(b)
+		idx := strings.Split(parts[3], ".")
+		for k, is := range idx {
+			x, _ := cur.Index(atoi64(is))
+			if k == len(idx)-1 {
+				t := strings.Fields(parts[4])
+				switch t[0] {
+				case "kw":
+					c, ok := stackage.ConvertCondition(x)
+					if !ok {
+						return "NAV"
+					}
+					c.SetKeyword(unhx(t[1]))
+				case "push":
+					s, ok := stackage.ConvertStack(x)
+					if !ok {
+						return "NAV"
+					}
+					lv, _ := parseV(t[1:])
+					s.Push(Build(lv))
+				case "rep":
+					s, ok := stackage.ConvertStack(x)
+					if !ok {
+						return "NAV"
+					}
+					lv, rest := parseV(t[1:])
+					if !s.Replace(Build(lv), atoi64(rest[0])) {
+						return "NAV"
+					}
+				}
+				return "ok"
+			}
+			nx, ok := stackage.ConvertStack(x)
+			if !ok {
+				return "NAV"
+			}
+			cur = nx
+		}
+		return "NAV"
+	})
+	if done != "ok" {
+		return "MUT-" + done
+	}
+	return "ab=" + isEq(a, b) + " ba=" + isEq(b, a)
 }
